@@ -2,50 +2,46 @@
 C14 — SRTP-mandatory modes never send or accept cleartext media.
 Property theorems only; the model is `RtcModel/Gate.lean`, helper lemmas `RtcModel/Lemmas/Gate.lean`.
 
-All statements quantify over an arbitrary initial system `s : Tid → Tr` (any number of transports,
-any `srtp_required` flags, sessions, bridges, listeners, observers) and an arbitrary, unbounded
-sequence of operations `ops` (install keys, send_rtp, raw send, send_rtcp, sync BYE, receive
-clear / protected(ok?) / garbage RTP and RTCP, install / clear bridge, close — on any transport of
-the system, in any order).  Task interleavings are such sequences because every gate reads the
-session slot exactly once per call (see `Gate.lean`).
+Everything is stated for an ARBITRARY SRTP suite `S : Suite` (abstract session state, `protect_*` /
+`unprotect_*` that may fail, plain parsers, the security notion `Authentic*` and its law fields), an
+arbitrary initial system `s : Tid → Tr S` (any number of transports, any `srtp_required` flags,
+sessions, bridges, listeners, observers) and an arbitrary, unbounded sequence of operations `ops`
+(install keys, send_rtp, raw send, send_rtcp, sync BYE, receive any datagram as RTP or RTCP, install
+/ clear bridge, close, (re-)register listeners and observers — on any transport, in any order).
+The cryptographic hypothesis is explicit: it is the `unprotect*_sound` law of the suite
+("a session accepts only datagrams that are authentic under its key set"), which C05 establishes
+for rustrtc's `SrtpContext`; the inbound theorems conclude `S.Authentic* k w` through it.
+
+What these theorems are: statements about which branch each of the seven gate copies takes in
+every reachable state.  They are deliberately simple; the tie to the code is the correspondence run.
 -/
 import RtcModel.Lemmas.Gate
 
 namespace RtcModel.Theorems.C14
 open RtcModel.Gate
+variable {S : Suite}
 
-/-! ### step-level facts (one gate evaluation from an arbitrary state) -/
+/-! ### one step from an arbitrary state (gate-by-gate facts are in `Lemmas/Gate.lean`) -/
 
-/-- Outbound, one step: whatever the operation and whatever path produced it (own send, raw send,
+/-- **Outbound, one step**: whatever the operation and whatever path produced it (own send, raw send,
 RTCP, close-time BYE, bridge relay from ANY other transport), a datagram put on the connection of a
-mandatory transport `c` is the output of `c`'s own session under the keys currently in `c`'s slot. -/
-theorem out_step (s : St) (o : Op) (c : Tid) (m : Media) (f : Form) (src : Src)
+mandatory transport `c` is the `Ok` output of `c`'s own session under the key set currently in
+`c`'s slot — in particular not the plain-marshal arm and not a `protect_*` error arm. -/
+theorem out_step (s : St S) (o : Op S) (c : Tid) (m : Media) (f : Form) (src : Src)
     (hreq : (s c).required = true) (hev : Ev.emit c m f src ∈ (step s o).2) :
-    ∃ k, (s c).keys = some k ∧ f = .prot c k := by
+    ∃ k, (s c).key = some k ∧ f = .prot c k := by
   cases o with
   | installKeys t k => simp [step] at hev
   | setBridge t b => simp [step] at hev
   | clearBridge t => simp [step] at hev
-  | sendRtp t =>
-    simp only [step, sendRtpGate] at hev
-    split at hev <;> (try split at hev) <;> simp at hev
-    all_goals (obtain ⟨rfl, rfl, rfl, rfl⟩ := hev; simp_all)
-  | sendRaw t p =>
-    simp only [step, sendRawGate] at hev
-    split at hev <;> (try split at hev) <;> simp at hev
-    all_goals (obtain ⟨rfl, rfl, rfl, rfl⟩ := hev; simp_all)
-  | sendRtcp t =>
-    simp only [step, sendRtcpGate] at hev
-    split at hev <;> (try split at hev) <;> simp at hev
-    all_goals (obtain ⟨rfl, rfl, rfl, rfl⟩ := hev; simp_all)
-  | syncBye t =>
-    simp only [step, syncByeGate] at hev
-    split at hev <;> (try split at hev) <;> simp at hev
-    all_goals (obtain ⟨rfl, rfl, rfl, rfl⟩ := hev; simp_all)
+  | setFlags t l r ob => simp [step] at hev
+  | sendRtp t => obtain ⟨rfl, h, _⟩ := sendRtpGate_ok t (s t) c m f src hev; exact h hreq
+  | sendRaw t p => obtain ⟨rfl, h, _⟩ := sendRawGate_ok t (s t) p c m f src hev; exact h hreq
+  | sendRtcp t => obtain ⟨rfl, h, _⟩ := sendRtcpGate_ok t (s t) c m f src hev; exact h hreq
+  | syncBye t => obtain ⟨rfl, h, _⟩ := syncByeGate_ok t (s t) c m f src hev; exact h hreq
   | close t =>
-    simp only [step, syncByeGate] at hev
-    split at hev <;> (try split at hev) <;> simp at hev
-    all_goals (obtain ⟨rfl, rfl, rfl, rfl⟩ := hev; simp_all)
+    obtain ⟨rfl, h, _⟩ := syncByeGate_ok t (closed (s t)) c m f src hev
+    exact h hreq
   | recvRtcp t w =>
     simp only [step, recvRtcp] at hev
     split at hev <;> (try split at hev) <;> simp at hev
@@ -54,44 +50,42 @@ theorem out_step (s : St) (o : Op) (c : Tid) (m : Media) (f : Form) (src : Src)
     split at hev
     · simp at hev
     · rename_i p _
-      simp only [afterAccept, List.mem_append] at hev
-      rcases hev with hev | hev
-      · split at hev <;> simp at hev
-      · split at hev
-        · rename_i b _
-          simp only [List.mem_append] at hev
-          rcases hev with hev | hev
-          · split at hev <;> simp at hev
-          · simp only [bridgeGate] at hev
-            split at hev <;> (try split at hev) <;> simp at hev
-            all_goals (obtain ⟨hc, rfl, rfl, rfl⟩ := hev; subst hc; simp_all)
-        · split at hev <;> simp at hev
+      have hpre := withSess_frame s t (recvRtpGate (s t) w).1 (recvRtpGate_key (s t) w)
+      rcases afterAccept_events _ t p v _ hev with h | ⟨h, _⟩ | ⟨b, _, h | h⟩
+      · simp at h
+      · simp at h
+      · simp at h
+      · obtain ⟨rfl, hk, _⟩ := bridgeGate_ok _ _ t p c m f src h
+        rw [(hpre _).1, (hpre _).2.1] at hk
+        exact hk hreq
 
-/-- Inbound, one step: a plaintext packet handed to a listener / observer / RTCP listener / a bridge
-target's observer on behalf of mandatory transport `t` came out of a successful `unprotect` of a
-datagram protected under the keys currently in `t`'s slot. -/
-theorem in_step (s : St) (o : Op) (t : Tid) (sink : Sink) (p : Prov)
+/-- **Inbound, one step**: a plaintext packet handed to a listener / observer / RTCP listener / a bridge
+target's observer on behalf of mandatory transport `t` was accepted by `unprotect_*` of the session
+currently in `t`'s slot, from the datagram this very operation received. -/
+theorem in_step (s : St S) (o : Op S) (t : Tid) (sink : Sink) (p : Prov)
     (hreq : (s t).required = true) (hev : Ev.deliver t sink p ∈ (step s o).2) :
-    ∃ k, (s t).keys = some k ∧ p = .auth k ∧
-      ((∃ v a, o = .recvRtp t (.prot k true a) v) ∨ ∃ a, o = .recvRtcp t (.prot k true a)) := by
+    ∃ se, (s t).sess = some se ∧ p = .auth (S.keyOf se) ∧
+      ((∃ w v, o = .recvRtp t w v ∧ (S.unprotectRtp se w).2 = true) ∨
+       (∃ w, o = .recvRtcp t w ∧ (S.unprotectRtcp se w).2 = true)) := by
   cases o with
   | installKeys t k => simp [step] at hev
   | setBridge t b => simp [step] at hev
   | clearBridge t => simp [step] at hev
+  | setFlags t l r ob => simp [step] at hev
   | sendRtp t' =>
-    simp only [step, sendRtpGate] at hev
+    simp only [step, own, sendRtpGate] at hev
     split at hev <;> (try split at hev) <;> simp at hev
   | sendRaw t' p' =>
-    simp only [step, sendRawGate] at hev
-    split at hev <;> (try split at hev) <;> simp at hev
+    simp only [step, own, sendRawGate] at hev
+    split at hev <;> (try split at hev) <;> (try split at hev) <;> simp at hev
   | sendRtcp t' =>
-    simp only [step, sendRtcpGate] at hev
+    simp only [step, own, sendRtcpGate] at hev
     split at hev <;> (try split at hev) <;> simp at hev
   | syncBye t' =>
-    simp only [step, syncByeGate] at hev
+    simp only [step, own, syncByeGate] at hev
     split at hev <;> (try split at hev) <;> simp at hev
   | close t' =>
-    simp only [step, syncByeGate] at hev
+    simp only [step, own, syncByeGate] at hev
     split at hev <;> (try split at hev) <;> simp at hev
   | recvRtcp t' w =>
     simp only [step, recvRtcp] at hev
@@ -99,65 +93,50 @@ theorem in_step (s : St) (o : Op) (t : Tid) (sink : Sink) (p : Prov)
     · simp at hev
     · rename_i p' hg
       split at hev <;> simp at hev
-      obtain ⟨rfl, rfl, rfl⟩ := hev
-      simp only [recvRtcpGate] at hg
-      split at hg
-      · rename_i k hk
-        split at hg <;> simp at hg
-        obtain ⟨⟨rfl, rfl⟩, rfl⟩ := hg
-        exact ⟨_, hk, rfl, Or.inr ⟨_, rfl⟩⟩
-      · simp [hreq] at hg
+      obtain ⟨e1, _, e3⟩ := hev
+      subst e1 e3
+      obtain ⟨se, hse, hp, hu⟩ := recvRtcpGate_ok (s t) w p hg hreq
+      exact ⟨se, hse, hp, Or.inr ⟨w, rfl, hu⟩⟩
   | recvRtp t' w v =>
     simp only [step, recvRtp] at hev
     split at hev
     · simp at hev
     · rename_i p' hg
       have hsrc : t' = t ∧ p' = p := by
-        simp only [afterAccept, List.mem_append] at hev
-        rcases hev with hev | hev
-        · split at hev <;> simp at hev
-          exact ⟨hev.1.symm, hev.2.2.symm⟩
-        · split at hev
-          · simp only [List.mem_append] at hev
-            rcases hev with hev | hev
-            · split at hev <;> simp at hev
-              exact ⟨hev.1.symm, hev.2.2.symm⟩
-            · simp only [bridgeGate] at hev
-              split at hev <;> (try split at hev) <;> simp at hev
-          · split at hev <;> simp at hev
-            exact ⟨hev.1.symm, hev.2.2.symm⟩
+        rcases afterAccept_events _ t' p' v _ hev with h | ⟨h, _⟩ | ⟨b, _, h | h⟩
+        · simp at h; exact ⟨h.1.symm, h.2.2.symm⟩
+        · simp at h; exact ⟨h.1.symm, h.2.2.symm⟩
+        · simp at h; exact ⟨h.1.symm, h.2.2.symm⟩
+        · obtain ⟨f, hf⟩ := bridgeGate_shape _ _ _ _ _ h; cases hf
       obtain ⟨rfl, rfl⟩ := hsrc
-      simp only [recvRtpGate] at hg
-      split at hg
-      · rename_i k hk
-        split at hg <;> simp at hg
-        obtain ⟨⟨rfl, rfl⟩, rfl⟩ := hg
-        exact ⟨_, hk, rfl, Or.inl ⟨v, _, rfl⟩⟩
-      · simp [hreq] at hg
+      obtain ⟨se, hse, hp, hu⟩ := recvRtpGate_ok (s t') w p' hg hreq
+      exact ⟨se, hse, hp, Or.inl ⟨w, v, rfl, hu⟩⟩
 
-/-- Relay, one step: a datagram emitted as a bridge relay of an inbound packet of mandatory
-transport `t` carries an authenticated packet. -/
-theorem relay_step (s : St) (o : Op) (t c : Tid) (m : Media) (f : Form) (p : Prov)
+/-- **Relay, one step**: a datagram emitted (on any connection) as a bridge relay of an inbound packet
+of mandatory transport `t` carries a packet `t`'s session accepted in this very operation. -/
+theorem relay_step (s : St S) (o : Op S) (t c : Tid) (m : Media) (f : Form) (p : Prov)
     (hreq : (s t).required = true) (hev : Ev.emit c m f (.relay t p) ∈ (step s o).2) :
-    ∃ k v a, (s t).keys = some k ∧ p = .auth k ∧ o = .recvRtp t (.prot k true a) v := by
+    ∃ se w v, (s t).sess = some se ∧ p = .auth (S.keyOf se) ∧ o = .recvRtp t w v ∧
+      (S.unprotectRtp se w).2 = true := by
   cases o with
   | installKeys t k => simp [step] at hev
   | setBridge t b => simp [step] at hev
   | clearBridge t => simp [step] at hev
+  | setFlags t l r ob => simp [step] at hev
   | sendRtp t' =>
-    simp only [step, sendRtpGate] at hev
+    simp only [step, own, sendRtpGate] at hev
     split at hev <;> (try split at hev) <;> simp at hev
   | sendRaw t' p' =>
-    simp only [step, sendRawGate] at hev
-    split at hev <;> (try split at hev) <;> simp at hev
+    simp only [step, own, sendRawGate] at hev
+    split at hev <;> (try split at hev) <;> (try split at hev) <;> simp at hev
   | sendRtcp t' =>
-    simp only [step, sendRtcpGate] at hev
+    simp only [step, own, sendRtcpGate] at hev
     split at hev <;> (try split at hev) <;> simp at hev
   | syncBye t' =>
-    simp only [step, syncByeGate] at hev
+    simp only [step, own, syncByeGate] at hev
     split at hev <;> (try split at hev) <;> simp at hev
   | close t' =>
-    simp only [step, syncByeGate] at hev
+    simp only [step, own, syncByeGate] at hev
     split at hev <;> (try split at hev) <;> simp at hev
   | recvRtcp t' w =>
     simp only [step, recvRtcp] at hev
@@ -168,37 +147,27 @@ theorem relay_step (s : St) (o : Op) (t c : Tid) (m : Media) (f : Form) (p : Pro
     · simp at hev
     · rename_i p' hg
       have hsrc : t' = t ∧ p' = p := by
-        simp only [afterAccept, List.mem_append] at hev
-        rcases hev with hev | hev
-        · split at hev <;> simp at hev
-        · split at hev
-          · simp only [List.mem_append] at hev
-            rcases hev with hev | hev
-            · split at hev <;> simp at hev
-            · simp only [bridgeGate] at hev
-              split at hev <;> (try split at hev) <;> simp at hev
-              all_goals exact ⟨hev.2.2.2.1.symm, hev.2.2.2.2.symm⟩
-          · split at hev <;> simp at hev
+        rcases afterAccept_events _ t' p' v _ hev with h | ⟨h, _⟩ | ⟨b, _, h | h⟩
+        · simp at h
+        · simp at h
+        · simp at h
+        · obtain ⟨f', hf⟩ := bridgeGate_shape _ _ _ _ _ h
+          simp at hf; exact ⟨hf.2.2.2.1.symm, hf.2.2.2.2.symm⟩
       obtain ⟨rfl, rfl⟩ := hsrc
-      simp only [recvRtpGate] at hg
-      split at hg
-      · rename_i k hk
-        split at hg <;> simp at hg
-        obtain ⟨⟨rfl, rfl⟩, rfl⟩ := hg
-        exact ⟨_, v, _, hk, rfl, rfl⟩
-      · simp [hreq] at hg
+      obtain ⟨se, hse, hp, hu⟩ := recvRtpGate_ok (s t') w p' hg hreq
+      exact ⟨se, w, v, hse, hp, rfl, hu⟩
 
 /-! ### the property, for every operation sequence -/
 
 /-- **required_never_clear_out**: in a mandatory-SRTP transport `c`, for every sequence of
 operations on the whole system, every RTP or RTCP datagram that reaches `c`'s connection — by
 `send_rtp`, raw `send`, `send_rtcp`, the close-time BYE or the rewrite bridge of any other
-transport — is SRTP/SRTCP-protected by `c`'s own session under the session keys, i.e. the key set
-most recently installed on `c` before that moment. -/
-theorem required_never_clear_out (s : St) (ops : List Op) (c : Tid) (m : Media) (f : Form) (src : Src)
+transport — is the `Ok` output of `c`'s own session, keyed with the key set most recently
+installed on `c` before that moment (never plain bytes, never the product of a failed protect). -/
+theorem required_never_clear_out (s : St S) (ops : List (Op S)) (c : Tid) (m : Media) (f : Form) (src : Src)
     (hreq : (s c).required = true) (hev : Ev.emit c m f src ∈ trace s ops) :
     ∃ pre o post k, ops = pre ++ o :: post ∧ Ev.emit c m f src ∈ (step (run s pre) o).2 ∧
-      lastInstalled c (s c).keys pre = some k ∧ f = .prot c k := by
+      lastInstalled c (s c).key pre = some k ∧ f = .prot c k := by
   obtain ⟨pre, o, post, he, hm⟩ := (mem_trace_iff s ops _).1 hev
   have hr : ((run s pre) c).required = true := by rw [run_required]; exact hreq
   obtain ⟨k, hk, hf⟩ := out_step (run s pre) o c m f src hr hm
@@ -207,113 +176,105 @@ theorem required_never_clear_out (s : St) (ops : List Op) (c : Tid) (m : Media) 
 
 /-- **nothing_before_keys**: while no keys have been installed on mandatory transport `c`, nothing at
 all is emitted on its connection, whatever else happens in the system. -/
-theorem nothing_before_keys (s : St) (ops : List Op) (c : Tid)
-    (hreq : (s c).required = true) (hk : (s c).keys = none)
+theorem nothing_before_keys (s : St S) (ops : List (Op S)) (c : Tid)
+    (hreq : (s c).required = true) (hk : (s c).sess = none)
     (hno : ∀ k, Op.installKeys c k ∉ ops) (m : Media) (f : Form) (src : Src) :
     Ev.emit c m f src ∉ trace s ops := by
   intro hev
   obtain ⟨pre, o, post, k, he, _, hl, _⟩ := required_never_clear_out s ops c m f src hreq hev
   have hpre : ∀ k, Op.installKeys c k ∉ pre := fun k hk' => hno k (by rw [he]; simp [hk'])
-  rw [hk, lastInstalled_none c pre hpre] at hl
+  have : (s c).key = none := by simp [Tr.key, hk]
+  rw [this, lastInstalled_none c pre hpre] at hl
   exact absurd hl (by simp)
 
-/-- **required_never_clear_in**: for every operation sequence, a packet delivered on behalf of
-mandatory transport `t` to a track listener, an ingress observer, the RTCP listener or a bridge
-target's observer is the result of successfully authenticating an inbound datagram protected under
-the key set most recently installed on `t`; cleartext, wrongly keyed, forged (`ok = false`),
-replayed and unparsable datagrams are never delivered, and nothing is delivered before keys exist. -/
-theorem required_never_clear_in (s : St) (ops : List Op) (t : Tid) (sink : Sink) (p : Prov)
+/-- **required_never_clear_in** ("delivered ⇒ authentic"): for every operation sequence, a packet
+delivered on behalf of mandatory transport `t` to a track listener, an ingress observer, the RTCP
+listener or a bridge target's observer stems from a datagram `w` received by that very operation
+which is AUTHENTIC (`S.AuthenticRtp k w` / `S.AuthenticRtcp k w`) under the key set `k` most
+recently installed on `t`.  The step from "the session accepted it" to "authentic" is the suite's
+law `unprotect*_sound` — the named cryptographic hypothesis.  Nothing is delivered before keys exist. -/
+theorem required_never_clear_in (s : St S) (ops : List (Op S)) (t : Tid) (sink : Sink) (p : Prov)
     (hreq : (s t).required = true) (hev : Ev.deliver t sink p ∈ trace s ops) :
-    ∃ pre o post k, ops = pre ++ o :: post ∧ lastInstalled t (s t).keys pre = some k ∧ p = .auth k ∧
-      ((∃ v a, o = .recvRtp t (.prot k true a) v) ∨ ∃ a, o = .recvRtcp t (.prot k true a)) := by
+    ∃ pre o post k, ops = pre ++ o :: post ∧ lastInstalled t (s t).key pre = some k ∧ p = .auth k ∧
+      ((∃ w v, o = .recvRtp t w v ∧ S.AuthenticRtp k w) ∨ (∃ w, o = .recvRtcp t w ∧ S.AuthenticRtcp k w)) := by
   obtain ⟨pre, o, post, he, hm⟩ := (mem_trace_iff s ops _).1 hev
   have hr : ((run s pre) t).required = true := by rw [run_required]; exact hreq
-  obtain ⟨k, hk, hp, ho⟩ := in_step (run s pre) o t sink p hr hm
-  rw [run_keys] at hk
-  exact ⟨pre, o, post, k, he, hk, hp, ho⟩
+  obtain ⟨se, hse, hp, ho⟩ := in_step (run s pre) o t sink p hr hm
+  have hk : lastInstalled t (s t).key pre = some (S.keyOf se) := by
+    rw [← run_keys]; simp [Tr.key, hse]
+  refine ⟨pre, o, post, S.keyOf se, he, hk, hp, ?_⟩
+  rcases ho with ⟨w, v, rfl, hu⟩ | ⟨w, rfl, hu⟩
+  · exact Or.inl ⟨w, v, rfl, S.unprotectRtp_sound se w hu⟩
+  · exact Or.inr ⟨w, rfl, S.unprotectRtcp_sound se w hu⟩
 
 /-- **required_never_relays_clear**: for every operation sequence, whatever a mandatory transport `t`
 hands to a bridged peer (a datagram emitted on any connection as a relay of `t`'s inbound traffic)
-is an authenticated inbound packet of `t`. -/
-theorem required_never_relays_clear (s : St) (ops : List Op) (t c : Tid) (m : Media) (f : Form) (p : Prov)
+stems from a datagram authentic under `t`'s current key set. -/
+theorem required_never_relays_clear (s : St S) (ops : List (Op S)) (t c : Tid) (m : Media) (f : Form) (p : Prov)
     (hreq : (s t).required = true) (hev : Ev.emit c m f (.relay t p) ∈ trace s ops) :
-    ∃ pre v a post k, ops = pre ++ Op.recvRtp t (.prot k true a) v :: post ∧
-      lastInstalled t (s t).keys pre = some k ∧ p = .auth k := by
+    ∃ pre w v post k, ops = pre ++ Op.recvRtp t w v :: post ∧
+      lastInstalled t (s t).key pre = some k ∧ p = .auth k ∧ S.AuthenticRtp k w := by
   obtain ⟨pre, o, post, he, hm⟩ := (mem_trace_iff s ops _).1 hev
   have hr : ((run s pre) t).required = true := by rw [run_required]; exact hreq
-  obtain ⟨k, v, a, hk, hp, ho⟩ := relay_step (run s pre) o t c m f p hr hm
-  rw [run_keys] at hk
+  obtain ⟨se, w, v, hse, hp, ho, hu⟩ := relay_step (run s pre) o t c m f p hr hm
+  have hk : lastInstalled t (s t).key pre = some (S.keyOf se) := by
+    rw [← run_keys]; simp [Tr.key, hse]
   subst ho
-  exact ⟨pre, v, a, post, k, he, hk, hp⟩
+  exact ⟨pre, w, v, post, S.keyOf se, he, hk, hp, S.unprotectRtp_sound se w hu⟩
 
-/-- what the bridge must put on the wire for a target in state `y` (written from the property text,
-not from `bridgeGate`): protected by the target's own session when it has keys; nothing when the
-target is mandatory and has no keys; clear only for a non-mandatory target without keys. -/
-def bridgeSpec (tgt : Tid) (y : Tr) : Option Form :=
-  if y.keys.isSome then y.keys.map (Form.prot tgt)
-  else if y.required then none else some .clear
+/-- what the bridge may put on the wire for a target in state `y` (written from the property text,
+not from `bridgeGate`): with keys only the target's own protected form; without keys nothing if the
+target is mandatory, plain bytes otherwise. -/
+def bridgeAllows (tgt : Tid) (required : Bool) (key : Option KeyId) (f : Form) : Prop :=
+  match key with
+  | some k => f = .prot tgt k
+  | none => required = false ∧ f = .clear
 
 /-- **bridge_respects_target**: for every operation sequence and every inbound packet that reaches an
 installed bridge, (1) the only datagrams emitted by that step are relays on the connection of the
 target selected from the packet's ORIGINAL payload type (video target for video payload types,
-else the main target), never on the source's or any other connection; (2) each is produced exactly
-as `bridgeSpec` prescribes for the target's keys at that moment; (3) the packet is not also handed to a
-local listener (fast-path early return). -/
-theorem bridge_respects_target (s : St) (pre : List Op) (t : Tid) (w : Wire) (v : Bool) (b : Bridge)
+else the main target), never on the source's or any other connection; (2) each is what
+`bridgeAllows` permits for the target's flag and the key set most recently installed on the TARGET
+(a failed protect emits nothing); (3) the packet is not also handed to a local listener. -/
+theorem bridge_respects_target (s : St S) (pre : List (Op S)) (t : Tid) (w : S.W) (v : Bool) (b : Bridge)
     (hb : ((run s pre) t).bridge = some b) (ev : Ev)
     (hev : ev ∈ (step (run s pre) (.recvRtp t w v)).2) :
     (∀ c m f src, ev = .emit c m f src →
         c = b.pick v ∧ m = .rtp ∧ (∃ p, src = .relay t p) ∧
-        bridgeSpec c { (run s pre) c with keys := lastInstalled c (s c).keys pre } = some f) ∧
+        bridgeAllows c (s c).required (lastInstalled c (s c).key pre) f) ∧
     (∀ o sink p, ev = .deliver o sink p → sink ≠ .listener) := by
-  have hkeys : ∀ c, { (run s pre) c with keys := lastInstalled c (s c).keys pre } = (run s pre) c := by
-    intro c; rw [← run_keys]
   simp only [step, recvRtp] at hev
   split at hev
   · simp at hev
   · rename_i p hg
-    simp only [afterAccept, hb, List.mem_append] at hev
-    constructor
-    · intro c m f src he
-      subst he
-      rcases hev with hev | hev | hev
-      · split at hev <;> simp at hev
-      · split at hev <;> simp at hev
-      · simp only [bridgeGate] at hev
-        rw [hkeys]
-        split at hev <;> (try split at hev) <;> simp at hev
-        all_goals (obtain ⟨rfl, rfl, rfl, rfl⟩ := hev)
-        all_goals simp_all [bridgeSpec]
-    · intro o sink p' he
-      subst he
-      rcases hev with hev | hev | hev
-      · split at hev <;> simp at hev
-        simp [hev.2.1]
-      · split at hev <;> simp at hev
-        simp [hev.2.1]
-      · simp only [bridgeGate] at hev
-        split at hev <;> (try split at hev) <;> simp at hev
+    have hpre := withSess_frame (run s pre) t (recvRtpGate ((run s pre) t) w).1 (recvRtpGate_key _ w)
+    have hb' := (hpre t).2.2.1.trans hb
+    rcases afterAccept_events _ t p v _ hev with h | ⟨_, h⟩ | ⟨b', hb2, h | h⟩
+    · subst h; exact ⟨(by intro c m f src he; cases he), (by intro o sink p' he; cases he; simp)⟩
+    · rw [hb'] at h; cases h
+    · rw [hb'] at hb2; cases hb2
+      subst h; exact ⟨(by intro c m f src he; cases he), (by intro o sink p' he; cases he; simp)⟩
+    · rw [hb'] at hb2; cases hb2
+      obtain ⟨f0, hf0⟩ := bridgeGate_shape _ _ _ _ _ h
+      constructor
+      · intro c m f src he
+        subst he
+        obtain ⟨rfl, _, hk1, hk2⟩ := bridgeGate_ok _ _ t p _ _ _ _ h
+        simp at hf0
+        refine ⟨rfl, hf0.1, ⟨p, hf0.2.2⟩, ?_⟩
+        rw [(hpre _).1, (hpre _).2.1, run_keys, run_required] at *
+        unfold bridgeAllows
+        cases hl : lastInstalled (b.pick v) (s (b.pick v)).key pre with
+        | some k => exact hk1 k hl
+        | none => obtain ⟨h1, h2⟩ := hk2 hl; exact ⟨h2, h1⟩
+      · intro o sink p' he
+        subst he; cases hf0
 
-/-- **bridge_drops_without_target_keys**: a mandatory target without keys receives nothing from
-any bridge, for every operation sequence that installs no keys on it. -/
-theorem bridge_drops_without_target_keys (s : St) (ops : List Op) (tgt : Tid)
-    (hreq : (s tgt).required = true) (hk : (s tgt).keys = none)
-    (hno : ∀ k, Op.installKeys tgt k ∉ ops) (m : Media) (f : Form) (t : Tid) (p : Prov) :
-    Ev.emit tgt m f (.relay t p) ∉ trace s ops :=
-  nothing_before_keys s ops tgt hreq hk hno m f (.relay t p)
-
-/-- **mode_sections_use_mandatory_transports**: in WebRTC (DTLS-SRTP) and SDES-SRTP modes every
-transport object a media section can be attached to is created with `srtp_required = true`
-(the non-mandatory per-section transports exist only in plain-RTP mode). -/
-theorem mode_sections_use_mandatory_transports (m : Mode) (h : m ≠ .rtp) :
-    ∀ r ∈ sectionTransportFlags m, r = true := by
-  cases m <;> simp_all [sectionTransportFlags, primaryRequired, extraTransportsCreated]
-
-/-! ### non-vacuity: a concrete system in which the hypotheses hold and traffic does flow -/
+/-! ### non-vacuity: the symbolic suite `Sym` satisfies the laws, and traffic does flow -/
 
 /-- transports 0 (source, WebRTC), 1 (WebRTC bridge target), 2 (plain-RTP target) -/
-def demo : St := fun i =>
-  { required := i ≤ 1, keys := none, bridge := none, listener := true, rtcpListener := true, observer := true }
+def demo : St Sym := fun i =>
+  { required := i ≤ 1, sess := none, bridge := none, listener := true, rtcpListener := true, observer := true }
 
 example : (demo 0).required = true ∧ (demo 1).required = true ∧ (demo 2).required = false := by decide
 
@@ -331,6 +292,14 @@ example :
                 .recvRtp 0 .clear false, .recvRtp 0 (.prot 7 true true) false, .recvRtcp 0 .clear] =
       [.ret false, .ret false, .ret false] := by decide
 
+/-- unusable key material (key id 5): every protect / unprotect fails — nothing leaves, nothing is
+accepted, and nothing falls back to clear -/
+example :
+    trace demo [.installKeys 0 5, .sendRtp 0, .sendRaw 0 true, .sendRtcp 0, .syncBye 0,
+                .recvRtp 0 (.prot 5 true true) false, .setBridge 2 ⟨0, none⟩, .recvRtp 2 .clear false] =
+      [.ret false, .ret false, .ret false, .deliver 2 .ingressObs .unauth, .deliver 2 (.relayObs 0) .unauth] := by
+  decide
+
 /-- bridge: source 0 (keys 7) → target 1 first without keys (dropped), then with keys 9 (protected
 by 1's session), and → plain-RTP target 2 (clear) -/
 example :
@@ -341,7 +310,5 @@ example :
        .emit 1 .rtp (.prot 1 9) (.relay 0 (.auth 7)),
        .deliver 0 .ingressObs (.auth 7), .deliver 0 (.relayObs 2) (.auth 7),
        .emit 2 .rtp .clear (.relay 0 (.auth 7))] := by decide
-
-example : sectionTransportFlags .rtp = [false, false] ∧ sectionTransportFlags .webrtc = [true] := by decide
 
 end RtcModel.Theorems.C14
